@@ -3,6 +3,7 @@ import DilithiumVerif.Lemmas.KeccakSpec
 import DilithiumVerif.Lemmas.ShakeSmall
 import DilithiumVerif.Lemmas.OneShot
 import DilithiumVerif.Lemmas.Padding
+import DilithiumVerif.Lemmas.XofSpec
 /-
   C12 — SHAKE-128 and SHAKE-256 equal FIPS 202 for every input and every call pattern.
   Theorems about the sponge loops of the model (the repaired `keccak_squeeze`), generic in the permutation:
@@ -160,5 +161,105 @@ theorem padding_shape (rem : Nat) (h : rem < R256) :
     (DV.Padding.padBytes R256 (R256 - 1)) = [0x9F] ∧
     (rem < R256 - 1 → DV.Padding.padBytes R256 rem = [0x1F] ++ List.replicate (R256 - rem - 2) 0 ++ [0x80]) :=
   ⟨DV.Padding.padBytes_length R256 rem h, by decide, fun h' => by unfold DV.Padding.padBytes; rw [if_neg (by omega)]⟩
+
+/-! ## Every call pattern
+
+`absorbAll` feeds the input in any number of pieces, `squeezeAll` asks for the output in any number of pieces (each of any
+length, also longer than a rate block): the concatenated answers are SHAKE-256 of the concatenated input. -/
+
+def absorbAll : KeccakState → List (List Nat) → Chk KeccakState
+  | st, [] => .ok st
+  | st, c :: cs => shake256_absorb st c c.length >>= fun st' => absorbAll st' cs
+
+def squeezeAll : KeccakState → List Nat → Chk (List Nat × KeccakState)
+  | st, [] => .ok ([], st)
+  | st, n :: ns => shake256_squeeze n n st >>= fun r => squeezeAll r.2 ns >>= fun r2 => .ok (r.1 ++ r2.1, r2.2)
+
+theorem absorbAll_eq : ∀ (chunks : List (List Nat)) (M : List Nat),
+    absorbAll (absorbSpec keccakf R256 KeccakState.init.s 0 M) chunks = .ok (absorbSpec keccakf R256 KeccakState.init.s 0 (M ++ chunks.flatten))
+  | [], M => by simp [absorbAll]
+  | c :: cs, M => by
+      have hp := absorbSpec_pos_lt keccakf R256 M.length KeccakState.init.s 0 M rfl (by decide : 0 < R256)
+      unfold absorbAll shake256_absorb
+      rw [keccak_absorb_eq keccakf R256 _ c hp, ok_bind,
+        ← absorbSpec_append keccakf R256 M.length KeccakState.init.s 0 M c rfl (by decide), absorbAll_eq cs (M ++ c)]
+      simp [List.append_assoc]
+
+theorem squeezeAll_eq : ∀ (ns : List Nat) (st : KeccakState), st.pos ≤ R256 →
+    ∃ st', squeezeAll st ns = .ok ((squeezeSpec keccakf R256 st.s st.pos ns.sum).1, st')
+  | [], st, _ => ⟨st, by simp [squeezeAll, squeezeSpec_zero]⟩
+  | n :: ns, st, hp => by
+      have hp' := squeezeSpec_pos_le keccakf R256 (by decide) n st.s st.pos hp
+      obtain ⟨st', h'⟩ := squeezeAll_eq ns { s := (squeezeSpec keccakf R256 st.s st.pos n).2.1, pos := (squeezeSpec keccakf R256 st.s st.pos n).2.2 } hp'
+      refine ⟨st', ?_⟩
+      unfold squeezeAll
+      rw [shake256_squeeze_eq n st hp, ok_bind, h', ok_bind, List.sum_cons, squeezeSpec_split keccakf R256 (by decide) n ns.sum st.s st.pos hp]
+
+open DV.XofSpec in
+/-- **SHAKE-256 equals FIPS 202 for every call pattern**: absorb the input in any pieces, finalize, squeeze the output in
+    any pieces — the bytes returned, concatenated, are the first Σ n_i bytes of SHAKE-256 of the concatenated input
+    (the FIPS 202 sponge of the padded message, `XofSpec.SHAKE256`) -/
+theorem shake256_every_call_pattern (chunks : List (List Nat)) (ns : List Nat) :
+    ∃ st1 st2 st3, absorbAll KeccakState.init chunks = .ok st1 ∧ shake256_finalize st1 = .ok st2 ∧
+      squeezeAll st2 ns = .ok (SHAKE256 chunks.flatten ns.sum, st3) := by
+  have h0 : KeccakState.init = absorbSpec keccakf R256 KeccakState.init.s 0 [] := by
+    rw [absorbSpec_tail keccakf R256 _ 0 [] (by simp; decide)]; rfl
+  have ha := absorbAll_eq chunks []
+  rw [← h0, List.nil_append] at ha
+  obtain ⟨st2, hf, hpos, hs⟩ := finalize256_of_spec chunks.flatten
+  obtain ⟨st3, hq⟩ := squeezeAll_eq ns st2 (by rw [hpos]; exact Nat.le_refl _)
+  refine ⟨_, st2, st3, ha, hf, ?_⟩
+  rw [hq, hpos]
+  unfold SHAKE256
+  rw [squeeze_from_final R256 (by decide), hs]
+
+/-! the same for SHAKE-128, whose exposed output interface is `squeezeblocks` -/
+
+def absorbAll128 : KeccakState → List (List Nat) → Chk KeccakState
+  | st, [] => .ok st
+  | st, c :: cs => shake128_absorb st c c.length >>= fun st' => absorbAll128 st' cs
+
+def squeezeBlocksAll128 : KeccakState → List Nat → Chk (List Nat × KeccakState)
+  | st, [] => .ok ([], st)
+  | st, n :: ns => shake128_squeezeblocks (n * R128) n st >>= fun r => squeezeBlocksAll128 r.2 ns >>= fun r2 => .ok (r.1 ++ r2.1, r2.2)
+
+theorem absorbAll128_eq : ∀ (chunks : List (List Nat)) (M : List Nat),
+    absorbAll128 (absorbSpec keccakf R128 KeccakState.init.s 0 M) chunks = .ok (absorbSpec keccakf R128 KeccakState.init.s 0 (M ++ chunks.flatten))
+  | [], M => by simp [absorbAll128]
+  | c :: cs, M => by
+      have hp := absorbSpec_pos_lt keccakf R128 M.length KeccakState.init.s 0 M rfl (by decide : 0 < R128)
+      unfold absorbAll128 shake128_absorb
+      rw [keccak_absorb_eq keccakf R128 _ c hp, ok_bind,
+        ← absorbSpec_append keccakf R128 M.length KeccakState.init.s 0 M c rfl (by decide), absorbAll128_eq cs (M ++ c)]
+      simp [List.append_assoc]
+
+open DV.UniformStream in
+theorem squeezeBlocksAll128_eq : ∀ (ns : List Nat) (st : KeccakState),
+    ∃ st', squeezeBlocksAll128 st ns = .ok (stream128 st.s ns.sum, st')
+  | [], st => ⟨st, by simp [squeezeBlocksAll128, stream_zero]⟩
+  | n :: ns, st => by
+      obtain ⟨st', h'⟩ := squeezeBlocksAll128_eq ns { st with s := after128 st.s n }
+      refine ⟨st', ?_⟩
+      unfold squeezeBlocksAll128
+      rw [sq_blocks (n * R128) n st (Nat.le_refl _), ok_bind, h', ok_bind, List.sum_cons, stream_add]
+
+open DV.XofSpec DV.UniformStream in
+/-- **SHAKE-128 equals FIPS 202 for every call pattern** of its exposed interface: absorb in any pieces, finalize,
+    squeeze any numbers of blocks in any number of calls -/
+theorem shake128_every_call_pattern (chunks : List (List Nat)) (ns : List Nat) :
+    ∃ st1 st2 st3, absorbAll128 KeccakState.init chunks = .ok st1 ∧ shake128_finalize st1 = .ok st2 ∧
+      squeezeBlocksAll128 st2 ns = .ok (SHAKE128 chunks.flatten (ns.sum * R128), st3) := by
+  have h0 : KeccakState.init = absorbSpec keccakf R128 KeccakState.init.s 0 [] := by
+    rw [absorbSpec_tail keccakf R128 _ 0 [] (by simp; decide)]; rfl
+  have ha := absorbAll128_eq chunks []
+  rw [← h0, List.nil_append] at ha
+  obtain ⟨st2, hf, hpos, hs⟩ := finalize128_of_spec chunks.flatten
+  obtain ⟨st3, hq⟩ := squeezeBlocksAll128_eq ns st2
+  refine ⟨_, st2, st3, ha, hf, ?_⟩
+  rw [hq]
+  unfold stream128 streamOf SHAKE128
+  rw [squeezeblocks_loop_eq keccakf R128 (by decide) (by decide) ns.sum [] st2.s]
+  simp only [List.nil_append]
+  rw [squeeze_from_final R128 (by decide), hs]
 
 end DV.C12
